@@ -20,7 +20,7 @@ LEVEL_TEXT = ("Every TimeKeeper built (all start/stop/reference on a 1 s lattice
               "is stepped through its whole run under an icontract invariant and compared operation by operation with a python-int model; "
               "all spellings of a period are cross-checked and malformed ones must raise ValueError.")
 LEVEL_NOTE = "Trusts numpy datetime64 arithmetic for decoding results and icontract's invariant dispatch (evaluation count is reported; zero => inconclusive)."
-RULE = ("case = chunk of (start, stop, dt, reference, direction) combinations; thorough adds the exhaustive lattice start,stop in 0..24 s, dt in 1..7 s, "
+RULE = ("case = chunk of (start, stop, dt, reference, direction) combinations; thorough adds the exhaustive lattice start,stop in 0..40 s, dt in 1..7 s, "
         "reference in {none, start-5, start+3}; every combination is stepped Nsteps+2 times and probed at steps -5..Nsteps+5. Non-trivial: Nsteps >= 1; "
         "distinct by (duration, dt, direction, reference offset).")
 MANDATORY = ["forward", "reversed", "dt_not_dividing", "explicit_reference", "negative_steps_probed", "invariant_evaluations",
@@ -36,12 +36,12 @@ MALFORMED = ["", "PT", "1H", "PT1S1H", "PT1.5H", "P1D", "3600", 3600.0, None, [1
 
 def gen_cases(tier: str, seed: int) -> list[dict[str, Any]]:
     cases = []
-    nrand = 40 if tier == "quick" else 400
+    nrand = 40 if tier == "quick" else 4000
     for i in range(nrand):
         cases.append(dict(kind="random", seed=seed, idx=i, n=60))
     if tier == "thorough":
-        for s in range(0, 25):
-            cases.append(dict(kind="lattice", s=s, emax=24))
+        for s in range(0, 41):
+            cases.append(dict(kind="lattice", s=s, emax=40))
     else:
         for s in (0, 3, 7):
             cases.append(dict(kind="lattice", s=s, emax=9))
